@@ -159,8 +159,18 @@ CLAIMED["C15"] = (
     "numeric and declined.",
     _NOTE, "DESIGN.md section 5, C15")
 
+CLAIMED["C19"] = (
+    "path rule (raise dominates loop) on integer_power; rules F/K/W with "
+    "single-use-iterator tracking on the polynomial traversals; path conditions "
+    "of quotient(); class census for hashability of the exact legacy nodes",
+    "Partial: only the anchored structural clauses are decided (negative-n "
+    "refusal, coefficients surviving a rewriting mapper, exact-quotient node "
+    "built only for Euclidean rings and evaluated as numerator/denominator). "
+    "Euclid, lcm, FFT and polynomial arithmetic are numeric and declined.",
+    _NOTE, "DESIGN.md section 5, C19")
+
 for _p in ["C02", "C03", "C10",
-           "C16", "C19"]:
+           "C16"]:
     NOT_APPLICABLE[_p] = ("check under construction in this revision (see "
                           "DESIGN.md for the planned static rule)")
 NOT_APPLICABLE["C18"] = (
